@@ -26,6 +26,7 @@ import (
 	"time"
 
 	"github.com/rulego/streamsql/utils/cast"
+	"github.com/rulego/streamsql/utils/fieldpath"
 
 	"github.com/rulego/streamsql/types"
 )
@@ -343,6 +344,9 @@ func (cw *CountingWindow) getKey(data any) string {
 				mv := v.MapIndex(reflect.ValueOf(k))
 				if mv.IsValid() {
 					val = mv.Interface()
+				} else if fieldpath.IsNestedField(k) {
+					// GROUP BY dev.id: the key is a path into the row, as the aggregator resolves it
+					val, _ = fieldpath.GetNestedField(data, k)
 				}
 			}
 		case reflect.Struct:
